@@ -405,4 +405,8 @@ def run(repo, chk):
                 ok = ("self.value is not ABSENT" in txt) if p == "hasval" else ("hasval" in selfattrs and "[self]" in txt)
                 what = f"Element.{p} reflects whether a value is stated"
             chk.ob("R12.3", f"{cls}.{p}:aggregation", ok, fi.where, what)
+    from .shared import shared_value_mutations
+    muts = shared_value_mutations(repo, {"selector.Element", "selector.Call"})
+    chk.ob("R12.3", "selector:value-conditions-are-not-shared-between-selectors", not muts, "ptera/selector.py",
+           "the conditions checked by check_captures (all_values) are collected in a fresh list per selector, never appended to the cached list of a shared part" + (f" -- {muts}" if muts else ""))
     chk.count("functions", 14)
